@@ -157,6 +157,7 @@ def map_contracts(U, P, init_sort):
     m.ensures("forall(y, iff(mem(self.keys_storage, y), mem(old(self.keys_storage), y) or y == key))", "keys'=keys+{key}")
     m.ensures("forall(w, 0, old(len(self.keys_storage)), implies(old(self.keys_storage)[w] != key,"
               " maps_to(self, old(self.keys_storage)[w], old(self.values_storage)[w])))", "other-entries-unchanged")
+    m.ensures("len(self.keys_storage) == old(len(self.keys_storage)) + ite(old(mem(self.keys_storage, key)), 0, 1)", "one-more-entry-iff-new-key")
 
     m = P.method("__delitem__", {"key": REAL})
     m.raises("KeyError", when="not mem(self.keys_storage, key)")
@@ -164,6 +165,7 @@ def map_contracts(U, P, init_sort):
     m.ensures("forall(y, iff(mem(self.keys_storage, y), mem(old(self.keys_storage), y) and y != key))", "keys'=keys-{key}")
     m.ensures("forall(w, 0, old(len(self.keys_storage)), implies(old(self.keys_storage)[w] != key,"
               " maps_to(self, old(self.keys_storage)[w], old(self.values_storage)[w])))", "other-entries-unchanged")
+    m.ensures("len(self.keys_storage) == old(len(self.keys_storage)) - 1", "one-entry-fewer")
 
     m = P.method("__iter__", {}, SeqS(REAL))
     m.reads("SortedMap.keys_storage")
@@ -186,10 +188,28 @@ def map_mixins(U):
     m.modifies("self.keys_storage", "self.values_storage")
     m.ensures("ite(old(mem(self.keys_storage, key)), old(maps_to(self, key, result)), result == default)", "pop=dict.pop")
     m.ensures("forall(y, iff(mem(self.keys_storage, y), mem(old(self.keys_storage), y) and y != key))", "keys'=keys-{key}")
+    m = MM.method("popitem", {}, TupS(REAL, ANY))
+    m.raises("KeyError", when="len(self.keys_storage) == 0")
+    m.modifies("self.keys_storage", "self.values_storage")
+    m.ensures("old(mem(self.keys_storage, result[0]) and maps_to(self, result[0], result[1]))", "returns-a-stored-pair")
+    m.ensures("forall(y, iff(mem(self.keys_storage, y), mem(old(self.keys_storage), y) and y != result[0]))", "exactly-that-key-removed")
+    m.hint_exit("forall(w, 0, old(len(self.keys_storage)), implies(old(self.keys_storage)[w] != key,"
+                " maps_to(self, old(self.keys_storage)[w], old(self.values_storage)[w])))", "delitem-kept-the-others")
+    m.ensures("forall(w, 0, old(len(self.keys_storage)), implies(old(self.keys_storage)[w] != result[0],"
+              " maps_to(self, old(self.keys_storage)[w], old(self.values_storage)[w])))", "other-entries-unchanged")
+    m.ensures("len(self.keys_storage) == old(len(self.keys_storage)) - 1")
+    m = MM.method("clear", {})
+    m.modifies("self.keys_storage", "self.values_storage")
+    lp = m.loop(1).with_class_invariant()
+    lp.decreases("len(self.keys_storage)")
+    m.ensures("len(self.keys_storage) == 0", "cleared(terminates)")
     m = MM.method("setdefault", {"key": REAL, "default": ANY}, ANY)
     m.modifies("self.keys_storage", "self.values_storage")
     m.ensures("maps_to(self, key, result)")
     m.ensures("implies(not old(mem(self.keys_storage, key)), result == default)")
+    m.ensures("implies(old(mem(self.keys_storage, key)), old(maps_to(self, key, result)))", "present-key:returns-the-stored-value(whatever-it-is)")
+    m.ensures("forall(w, 0, old(len(self.keys_storage)), maps_to(self, old(self.keys_storage)[w], old(self.values_storage)[w]))",
+              "no-stored-entry-is-overwritten")
     m.ensures("forall(y, iff(mem(self.keys_storage, y), mem(old(self.keys_storage), y) or y == key))", "keys'=keys+{key}")
 
 
@@ -213,10 +233,80 @@ def unit_map():
         U.verify("SortedMap", f)
     for f in ("get", "__contains__"):
         U.verify("Mapping", f, "SortedMap")
-    for f in ("pop", "setdefault"):
+    for f in ("pop", "setdefault", "popitem", "clear"):
         U.verify("MutableMapping", f, "SortedMap")
     U.assume("keys()/values() of an unmodified dict enumerate its entries in the same order")
     U.assume("not verified deductively (bounded layer only): MutableMapping.update, popitem, clear and the views over SortedMap")
+    return U
+
+
+def update_contract(U, MM, other_sort):
+    """MutableMapping.update(other) for `other` = a sequence of (key, value) pairs or a dict: dict.update - every key of `other` present
+    afterwards with the value of its LAST pair, every other entry kept, nothing else added (kwds empty: keyword names are strings, not
+    numeric keys)"""
+    m = MM.method("update", {"other": other_sort, "kwds": MapS(STR, ANY)})
+    m.requires("len(kwds) == 0", "no-keyword-arguments(numeric-keys)")
+    m.modifies("self.keys_storage", "self.values_storage")
+    return m
+
+
+def unit_map_update():
+    U = Unit("C09/SortedMap.update(pairs)", "C09")
+    common(U)
+    U.var("w", INT)
+    P = declare_map(U)
+    map_contracts(U, P, None)
+    map_mixins(U)
+    MM = U.modules["stdlib:_collections_abc"].classes["MutableMapping"]
+    m = update_contract(U, MM, SeqS(TupS(REAL, ANY)))
+    m.loop(1), m.loop(2)
+    ok, ov = "old(self.keys_storage)", "old(self.values_storage)"
+    def inv(n):
+        return [("forall(y, iff(mem(self.keys_storage, y), mem(%s, y) or exists(j, 0, %s, other[j][0] == y)))" % (ok, n), "keys=old-keys+keys-of-the-pairs"),
+                ("forall(j, 0, %s, implies(forall(j2, j + 1, %s, other[j2][0] != other[j][0]), maps_to(self, other[j][0], other[j][1])))" % (n, n),
+                 "last-pair-of-a-key-wins"),
+                ("forall(w, 0, len(%s), implies(forall(j, 0, %s, other[j][0] != %s[w]), maps_to(self, %s[w], %s[w])))" % (ok, n, ok, ok, ov),
+                 "entries-not-named-by-a-pair-are-kept")]
+    lp = m.loop(3).with_class_invariant()
+    for e, l in inv("_i3"):
+        lp.invariant(e, l)
+    lp4 = m.loop(4).with_class_invariant()
+    for e, l in inv("len(other)"):
+        lp4.invariant(e, l)
+    for e, l in inv("len(other)"):
+        m.ensures(e, l)
+    U.verify("MutableMapping", "update", "SortedMap")
+    U.assume("update(**kwds) is excluded by precondition: keyword names are strings, not numeric keys")
+    return U
+
+
+def unit_map_update_dict():
+    """update(other) with a dict: the `isinstance(other, Mapping)` branch of the stdlib mixin"""
+    U = Unit("C09/SortedMap.update(dict)", "C09")
+    common(U)
+    U.var("w", INT)
+    P = declare_map(U)
+    map_contracts(U, P, None)
+    map_mixins(U)
+    MM = U.modules["stdlib:_collections_abc"].classes["MutableMapping"]
+    m = update_contract(U, MM, MapS(REAL, ANY))
+    ok, ov = "old(self.keys_storage)", "old(self.values_storage)"
+    lp = m.loop(1).with_class_invariant()
+    lp.invariant("forall(y, iff(mem(self.keys_storage, y), mem(%s, y) or exists(j, 0, _i1, _seq1[j] == y)))" % ok)
+    lp.invariant("forall(j, 0, _i1, maps_to(self, _seq1[j], other[_seq1[j]]))")
+    lp.invariant("forall(w, 0, len(%s), implies(forall(j, 0, _i1, _seq1[j] != %s[w]), maps_to(self, %s[w], %s[w])))" % (ok, ok, ok, ov))
+    lp.invariant("forall(j, 0, len(_seq1), _seq1[j] in other) and forall(y, implies(y in other, exists(j, 0, len(_seq1), _seq1[j] == y)))"
+                 " and forall(j, 0, len(_seq1), forall(j2, j + 1, len(_seq1), _seq1[j] != _seq1[j2]))", "iterating-a-dict-lists-its-keys-once-each")
+    m.loop(2), m.loop(3)
+    post = [("forall(y, iff(mem(self.keys_storage, y), mem(%s, y) or y in other))" % ok, "keys=old-keys+keys-of-other"),
+            ("forall(y, implies(y in other, maps_to(self, y, other[y])))", "values-of-other-stored"),
+            ("forall(w, 0, len(%s), implies(not (%s[w] in other), maps_to(self, %s[w], %s[w])))" % (ok, ok, ok, ov), "entries-not-in-other-are-kept")]
+    lp4 = m.loop(4).with_class_invariant()
+    for e, l in post:
+        lp4.invariant(e, l)
+        m.ensures(e, l)
+    U.verify("MutableMapping", "update", "SortedMap")
+    U.assume("iterating a dict yields each of its keys exactly once (engine rule for dict iteration)")
     return U
 
 
